@@ -73,9 +73,12 @@ const (
 	rTransportClose
 	rNSOk
 	rSessClose
+	rDialZeroTimeoutClose
+	rDialNegTimeoutClose
+	rDialTwoOptionsClose
 )
 
-var c18RealNames = map[int]string{rDialOk: "dial-ok", rDialFail: "dial-fail", rCmdOk: "cmd-ok", rCmdLostThenOk: "cmd-lost-then-ok", rTransportClose: "transport-close", rNSOk: "new-session-ok", rSessClose: "session-close"}
+var c18RealNames = map[int]string{rDialOk: "dial-ok", rDialFail: "dial-fail", rCmdOk: "cmd-ok", rCmdLostThenOk: "cmd-lost-then-ok", rTransportClose: "transport-close", rNSOk: "new-session-ok", rSessClose: "session-close", rDialZeroTimeoutClose: "dial-with-zero-timeout-then-close", rDialNegTimeoutClose: "dial-with-negative-timeout-then-close", rDialTwoOptionsClose: "dial-with-two-options-then-close"}
 
 func c18Names(ops []int) []string {
 	var out []string
@@ -417,6 +420,24 @@ func c18Real(c c18Case) (string, string) {
 				exp.add("bmc_connections_open{version=2.0}", 1)
 				conns = append(conns, conn)
 			}
+		case rDialZeroTimeoutClose, rDialNegTimeoutClose, rDialTwoOptionsClose:
+			// unusual option values: whatever DialV2 makes of them, the accounting
+			// must follow what it returned
+			opts := []bmc.DialConfigOption{bmc.WithTimeout(0)}
+			if op == rDialNegTimeoutClose {
+				opts = []bmc.DialConfigOption{bmc.WithTimeout(-time.Second)}
+			} else if op == rDialTwoOptionsClose {
+				opts = []bmc.DialConfigOption{bmc.WithTimeout(time.Hour), bmc.WithTimeout(time.Nanosecond)}
+			}
+			conn, err := bmc.DialV2(u.addr(), opts...)
+			exp.add("bmc_connection_open_attempts_total{version=2.0}", 1)
+			if err != nil {
+				exp.add("bmc_connection_open_failures_total{version=2.0}", 1)
+			} else {
+				exp.add("bmc_connections_open{version=2.0}", 1)
+				conn.Close()
+				exp.add("bmc_connections_open{version=2.0}", -1)
+			}
 		case rDialFail:
 			_, err := bmc.DialV2("256.0.0.1:notaport")
 			exp.add("bmc_connection_open_attempts_total{version=2.0}", 1)
@@ -569,7 +590,7 @@ func runC18(r *rep.R) {
 		}
 	}
 	// dial / transport close histories
-	realOps := []int{rDialOk, rDialFail, rCmdOk, rCmdLostThenOk, rNSOk, rSessClose, rTransportClose}
+	realOps := []int{rDialOk, rDialFail, rCmdOk, rCmdLostThenOk, rNSOk, rSessClose, rTransportClose, rDialZeroTimeoutClose, rDialNegTimeoutClose, rDialTwoOptionsClose}
 	var genR func(cur []int)
 	depthR := 3
 	if thorough(r) {
